@@ -23,10 +23,10 @@ CHECKS = {
         note='Trusted: numpy element-wise semantics, the algebra oracle. Circuit-level lifting by induction is argued, not mechanised.',
         ref='DESIGN.md 2/C02'),
     'C12': dict(
-        technique='static analysis: exhaustive truth-table abstract interpretation of _mv_* (bit-blasted uint8) and bp*_ operators vs algebra oracle; syntactic out= discipline rule',
+        technique='static analysis: exhaustive truth-table abstract interpretation of _mv_* (bit-blasted uint8) and bp*_ operators vs algebra oracle, with a shape-provenance component for broadcasting; syntactic out= discipline rule',
         text='Exhaustive over all 8^k / 4^k operand tuples, k = 1..4, for both storage formats, plus De Morgan, Boolean restriction and agreement between formats; '
-             'shape/lane independence follows because only element-wise primitives are accepted by the interpreter.',
-        note='Trusted: numpy ufunc/putmask semantics incl. out=/where=. Not decided: numpy broadcasting shape computation.',
+             'shape/lane independence follows because only element-wise primitives are accepted by the interpreter and no array shaped like a subset of the operands is updated in place with a value shaped like others (operands broadcast in any order).',
+        note='Trusted: numpy ufunc/putmask semantics incl. out=/where= and the broadcasting rule itself. out aliasing an operand is outside the property.',
         ref='DESIGN.md 2/C12'),
 }
 
@@ -80,9 +80,9 @@ CHECKS.update({
         note='The step from these rules to "every operand is produced in an earlier level" is a two-line induction in DESIGN.md, not mechanised. Scratch-slot sharing by ops without outputs is not examined.',
         ref='DESIGN.md 2/C07'),
     'C08': dict(
-        technique='static analysis: structural pin/alloc/alias/size rules on SimOps.__init__; path-wise symbolic effect analysis of Heap.alloc/Heap.free (linear expressions over chunk sizes) proving conservation on all 13 paths',
-        text='Decides the map clauses (pins that are never removed, free discipline, capacity = allocated size, aliasing order, c_len after the last alloc) and, for the allocator, the necessary tiling invariant sum(chunk sizes) == current_size and the max_size update on every path.',
-        note='NOT decided: the full allocator clause over all alloc/free histories (no overlap, coalescing, first-fit choice, released-list order) - only path-wise necessary invariants; needs model checking / exploration (other family).',
+        technique='static analysis: structural pin/alloc/alias/size rules on SimOps.__init__; path-wise symbolic effect analysis of Heap.alloc/Heap.free over a linear domain (chunk addresses/sizes as atoms, branch conditions as equalities, Gaussian elimination) on all 13 paths',
+        text='Decides the map clauses (pins that are never removed, free discipline, capacity = allocated size, aliasing order incl. port forks, c_len after the last alloc) and, for the allocator, inductive-step invariants on every path: chunk intervals keep tiling the managed range (position-exact splits, merges only between provably adjacent chunks, positive sizes), the returned chunk has the requested size and is unlisted, deleted keys never stay in `released`, a surviving freed chunk is listed, chunks[] is only accessed at known keys, max_size follows every growth.',
+        note='NOT decided: first-fit choice, ordering of `released`, completeness of coalescing (a missed merge keeps all invariants), and the composition of the invariants into the full no-overlap claim is argued, not mechanised.',
         ref='DESIGN.md 2/C08'),
 })
 
